@@ -139,12 +139,12 @@ func propC08(c *Ctx) {
 			"hash.hashIV"}, N: 1, Why: "id and protocol in one word (disjoint bit ranges), all four source bytes, all four destination bytes"}})
 	}
 	if fn := c.Fn(f4, "(*ipv4.endpoint).HandlePacket"); fn != nil {
-		m := map[string]string{"VV": "new(buffer.VectorisedView)", "H": "buffer.VectorisedView.First({VV})", "OFF": "header.IPv4.FragmentOffset({H})", "MF": "(1 & header.IPv4.Flags({H}))", "VALID": "header.IPv4.IsValid({H}, buffer.VectorisedView.Size({VV}))"}
+		m := map[string]string{"VV": "$2", "VVP": "new(buffer.VectorisedView)@3", "VVR": "new(buffer.VectorisedView)@u", "H": "buffer.VectorisedView.First({VV})", "OFF": "header.IPv4.FragmentOffset({H})", "MF": "(1 & header.IPv4.Flags({H}))", "VALID": "header.IPv4.IsValid({H}, buffer.VectorisedView.Size({VV}))"}
 		c.CheckSites(f4, fn, []SiteSpec{
-			{Kind: "call", Target: "(*fragmentation.Fragmentation).Process", Args: sub(m, "$0.fragmentation", "hash.IPv4FragmentHash({H})", "{OFF}", "((buffer.VectorisedView.Size({VV}) + {OFF}) - 1)", "({MF} != 0)", "{VV}"), Guards: sub(m, "{VALID}"), N: 1, Why: "first = fragment offset, last = offset + size - 1, more = MF bit, key from this header"},
-			{Kind: "call", Target: "(*buffer.VectorisedView).TrimFront", Args: sub(m, "&{VV}", "header.IPv4.HeaderLength({H})"), Guards: sub(m, "{VALID}"), N: 1, Why: "IP header removed (header length) after validation"},
-			{Kind: "call", Target: "(*buffer.VectorisedView).CapLength", Args: sub(m, "&{VV}", "(header.IPv4.TotalLength({H}) - header.IPv4.HeaderLength({H}))"), Guards: sub(m, "{VALID}"), N: 1, Why: "payload capped to total length - header length"},
-			{Kind: "call", Target: "iface:stack.TransportDispatcher.DeliverTransportPacket", Args: sub(m, "$0.dispatcher", "$1", "header.IPv4.TransportProtocol({H})", "{VV}"), Guards: sub(m, "{VALID}"), N: 1, Why: "delivery of the (possibly reassembled) payload"},
+			{Kind: "call", Target: "(*fragmentation.Fragmentation).Process", Args: sub(m, "$0.fragmentation", "hash.IPv4FragmentHash({H})", "{OFF}", "((buffer.VectorisedView.Size({VVP}) + {OFF}) - 1)", "({MF} != 0)", "{VVP}"), Guards: sub(m, "{VALID}"), N: 1, Why: "first = fragment offset, last = offset + size - 1, more = MF bit, key from this header"},
+			{Kind: "call", Target: "(*buffer.VectorisedView).TrimFront", Args: sub(m, "&new(buffer.VectorisedView)", "header.IPv4.HeaderLength({H})"), Guards: sub(m, "{VALID}"), N: 1, Why: "IP header removed (header length) after validation"},
+			{Kind: "call", Target: "(*buffer.VectorisedView).CapLength", Args: sub(m, "&new(buffer.VectorisedView)", "(header.IPv4.TotalLength({H}) - header.IPv4.HeaderLength({H}))"), Guards: sub(m, "{VALID}"), N: 1, Why: "payload capped to total length - header length"},
+			{Kind: "call", Target: "iface:stack.TransportDispatcher.DeliverTransportPacket", Args: sub(m, "$0.dispatcher", "$1", "header.IPv4.TransportProtocol({H})", "{VVR}"), Guards: sub(m, "{VALID}"), N: 1, Why: "delivery of the (possibly reassembled) payload"},
 		})
 		for _, pc := range c.Calls(fn, Is("(*fragmentation.Fragmentation).Process"), false) {
 			// fragment path exactly when MF set or offset != 0
@@ -186,10 +186,10 @@ func propC08(c *Ctx) {
 
 	f7 := c.Rule("F7", "K2 per-iteration must-follow + site table", "merge in offset order, no fragment skipped, overlap trimmed exactly", 5)
 	if fn := c.Fn(f7, "(*fragmentation.fragHeap).reassemble"); fn != nil {
-		m := map[string]string{"CUR": "new(fragmentation.fragment)", "SIZE": "phi{(buffer.VectorisedView.Size({CUR}.vv) + loop) | buffer.VectorisedView.Size(container/heap.Pop($0).(fragmentation.fragment).vv)}"}
+		m := map[string]string{"CUR": "new(fragmentation.fragment)", "SIZE": "phi{(buffer.VectorisedView.Size({CUR}.vv@u) + loop) | buffer.VectorisedView.Size(container/heap.Pop($0).(fragmentation.fragment).vv)}"}
 		c.CheckSites(f7, fn, []SiteSpec{
-			{Kind: "call", Target: "(*buffer.VectorisedView).TrimFront", Args: sub(m, "&{CUR}.vv", "({SIZE} - {CUR}.offset)"), Guards: sub(m, "({CUR}.offset < {SIZE})"), N: 1, Why: "an overlapping fragment loses exactly the bytes already assembled (size - offset)"},
-			{Kind: "call", Target: "builtin:append", Args: []string{"*", sub(m, "buffer.VectorisedView.Views({CUR}.vv)")[0]}, N: 1, Why: "the fragment's views are appended"},
+			{Kind: "call", Target: "(*buffer.VectorisedView).TrimFront", Args: sub(m, "&{CUR}.vv", "({SIZE} - {CUR}.offset@u)"), Guards: sub(m, "({CUR}.offset@u < {SIZE})"), N: 1, Why: "an overlapping fragment loses exactly the bytes already assembled (size - offset)"},
+			{Kind: "call", Target: "builtin:append", Args: []string{"*", sub(m, "buffer.VectorisedView.Views({CUR}.vv@u)")[0]}, N: 1, Why: "the fragment's views are appended"},
 		})
 		pops := c.Calls(fn, Is("container/heap.Pop"), false)
 		c.Check(len(pops) == 2, f7, FuncName(fn)+"/pop-sites", c.P.Pos(fn.Pos()), "first fragment + loop pop", "unexpected number of heap.Pop sites")
@@ -225,7 +225,7 @@ func propC08(c *Ctx) {
 			c.Check(bad == nil, f7, FuncName(fn)+"/every-popped-fragment-merged-or-fatal", c.pos(p), "each popped fragment is appended or the reassembly fails", "a popped fragment can be dropped silently (next iteration or successful return reached without appending it)")
 		}
 		// the gap test exists and leads to an error return
-		gap := sub(m, "({SIZE} < {CUR}.offset)")[0]
+		gap := sub(m, "({SIZE} < {CUR}.offset@u)")[0]
 		found := false
 		for _, e := range CondEdges(fn) {
 			if e.Atom == gap && e.Holds {
